@@ -101,6 +101,30 @@ def _mutate(obj, how, arg):
     return False
 
 
+class _MissingDict(dict):
+    """A dict subclass whose lookups of absent keys insert them (like defaultdict)."""
+
+    def __missing__(self, key):
+        self[key] = 1
+        return 1
+
+
+def _wrap(arg, how):
+    """The caller passes its table as a dict *subclass*: still a dict, equal to the plain one."""
+    if how is None or type(arg) is not dict:
+        return arg
+    import collections
+    if how == "defaultdict":
+        return collections.defaultdict(lambda: 2, arg)
+    if how == "OrderedDict":
+        return collections.OrderedDict(arg)
+    if how == "Counter":
+        return collections.Counter(arg)
+    if how == "missing":
+        return _MissingDict(arg)
+    return arg
+
+
 def alpha_strings(A, seed, count, maxlen):
     """Seeded strings over the sorted alphabet, biased to stay alive."""
     rng = random.Random(seed)
@@ -154,7 +178,7 @@ def execute(sf, ops, passive):
                 o = outcome(sf.set_semantic_constraints, op["name"])
             rec["r"] = o[:3]
         elif k == "set_table":
-            arg = parse_arg(op["lit"])
+            arg = _wrap(parse_arg(op["lit"]), op.get("wrap"))
             H[idx] = arg
             o = outcome(sf.set_semantic_constraints, arg)
             rec["r"] = o[:3]
@@ -233,6 +257,7 @@ class Violation:
 # (None: none required).  See DESIGN.md section 3.4.
 ORACLE_PROPS = {
     "get_eq_model":            {"C12": None},
+    "invalid_update_rejected": {"C12": None},
     "preset_eq_pristine":      {"C12": None},
     "alphabet_eq_oracle":      {"C07": None, "C12": "fault"},
     "alphabet_lower_bound":    {"C07": None},
@@ -326,6 +351,9 @@ class Verifier:
                     from_import = False
                     if fault:
                         probe("offspec_table_accepted:" + op["why"])
+                        if op["why"] in ("no_q", "bad_key", "bad_value", "bad_preset", "bad_arg"):
+                            # the statement lists these classes as rejected updates
+                            out.append(Violation("invalid_update_rejected", idx, {"kind": op["why"], "arg": op["lit"][:300]}))
                 else:
                     probe("fault_rejected_update:" + (op.get("why") or "preset") + ":" + str(r[1]))
                     if fault and _valid_prefix(op["lit"]):
